@@ -88,9 +88,11 @@ def check_C08(res, tier, seed, replay):
             A = base_graph(rng, size)
             B = base_graph(rng, max(5, size // 3))
             graphs = []     # (gid, graph, def)
+            dens = {}
             small = lambda g: len(g['edges']) <= 14
 
-            def mk(gid, g, rel, args, fct=1):
+            def mk(gid, g, rel, args, fct=1, den=4):
+                dens[gid] = den
                 d = {'e': 'Def', 'id': gid, 'rel': rel, 'args': args, 'f': fct, 'n': g['n'], 'm': len(g['edges']), 'small': small(g),
                      'edges': [list(e) for e in g['edges']] if small(g) else []}
                 graphs.append((gid, g, d))
@@ -104,6 +106,11 @@ def check_C08(res, tier, seed, replay):
             mk(5, scaled(A, 8), 'scale', [0], 8)
             mk(6, padded(rng, A), 'same', [0])
             mk(7, gens.union(padded(rng, B), scaled(A, 2)), 'union', [1, 4])
+            # scaling DOWN by powers of two: same integer weights over a larger power-of-two denominator; in logged units
+            # (returned value x denominator) the optimum must be literally the same number
+            mk(8, A, 'same', [0], den=4 * 2 ** 20)
+            mk(9, gens.permuted(rng, A), 'same', [0], den=4 * 2 ** 34)
+            mk(10, A, 'same', [0], den=4 * 2 ** 45)
             defs[f] = [d for _, _, d in graphs]
             sizes.append((A['n'], len(A['edges']), gens.csd(A)))
             for gid, g, d in graphs:
@@ -111,7 +118,7 @@ def check_C08(res, tier, seed, replay):
                 if tier != 'quick':
                     pres.append(gens.permuted(rng, g))
                 for p in pres:
-                    lines.append((vlib.graph_line(item, p['n'], p['edges'], 4, extra=['fam=%d' % f, 'gid=%d' % gid]), f, gid))
+                    lines.append((vlib.graph_line(item, p['n'], p['edges'], dens[gid], extra=['fam=%d' % f, 'gid=%d' % gid]), f, gid))
                     item += 1
         res.cov['families'] = nfam
         res.cov['largest_base_graphs'] = sorted(sizes, key=lambda t: -t[2])[:5]
